@@ -3,7 +3,7 @@ import GT.Base.QSqrt
 import GT.Model.ObjState
 import GT.Driver.C03
 import GT.Driver.C04
-open Lean GT.J GT
+open Lean GT.J GT GT.Act
 namespace GT.Driver.C11
 open GT.Driver.C04 (ndf ndOf ofND natsf)
 open GT.Driver.C03 (kindOf ofObj ofOpt)
